@@ -97,6 +97,11 @@ class G:
             bs = [min(b, 3) for b in bs]
         if vals == 'hitmiss':
             return self.arr(dtype, bs, 'rand', hi=2, layout=self.r.choice(['C', 'C', 'F', 'readonly']))
+        w = self.r.random()
+        if w < 0.07:      # the empty element and the centre-only element: kernels have early exits for them
+            return self.arr(dtype, bs, 'zeros', layout='C')
+        if w < 0.14:
+            return self.arr(dtype, bs, 'centre', layout='C')
         return self.arr(dtype, bs, 'bool', p=self.r.choice([0.3, 0.7, 1.0]), layout=self.r.choice(['C', 'C', 'F', 'strided', 'readonly']))
 
     def mode(self):
